@@ -678,7 +678,7 @@ def run(tier: str, driver_ok: bool) -> Result:
         "changes (serial +1 / 0 / 2^31, another accepted domain, a day late) + the honest successor with another serial, complete at depth 1, sampled "
         "below; the same tree (smaller) in 4 non-ASCII spellings of KSK labels / ZSK identifiers / request and bundle ids; every emitted SKR: "
         "load_skr, independent validator, loader reading == XML reading, bytes == the model writer's UTF-8 text; the routine honest successor must "
-        "be accepted; the same tree in 5 spellings with XML-special text handed over verbatim by the repository's reader (entity / character references, &amp;amp;, apostrophe + tab, "
+        "be accepted; the same tree in 4 spellings with XML-special text handed over verbatim by the repository's reader (entity / character references, &amp;amp;, apostrophe + tab, "
         "ampersands that are no reference) and 2 with identifiers related as strings (prefix, case), every kind of re-use (request id alone, bundle id first / last, replayed) at "
         "every state: emitted SKR echoes the KSR as the repository's reader reads both, re-use of the previous request's raw ids refused; configuration sections: num_bundles / "
         "validate_signatures of request_policy vs response_policy set apart x previous SKR honest / first- / last-bundle signature corrupted x KSR honest / proof of possession corrupted; "
@@ -697,7 +697,7 @@ def run(tier: str, driver_ok: bool) -> Result:
             explore(res, lib.rng("C10:" + text.name), runs, work, schemas, tier, text=text, budget=32 if quick else 100, depth_max=3, full=False)
         # XML-special content handed over verbatim, and identifiers related as strings: every kind of re-use at every state
         for text in list(R.XML_TEXT_PROFILES.values()) + list(R.RELATED_TEXT_PROFILES.values()):
-            explore(res, lib.rng("C10:" + text.name), runs, work, schemas, tier, text=text, budget=22 if quick else 50, depth_max=2 if quick else 3, full=False, must=tuple(REUSE_ALONE))
+            explore(res, lib.rng("C10:" + text.name), runs, work, schemas, tier, text=text, budget=20 if quick else 50, depth_max=2 if quick else 3, full=False, must=tuple(REUSE_ALONE))
         sections_stream(res, runs, work, schemas, tier)
         policy_change_stream(res, runs, work, schemas, tier)
         if driver_ok:
